@@ -77,6 +77,12 @@ Definition dispatch (fid : Z) (v : value) : value :=
   | 4 => enc_unit (pandora_check_completed (dec_fs (vnth 0 v)) (dec_jv (vnth 1 v)))
   (* 5: (dataset) -> check_dataset alone *)
   | 5 => enc_unit (check_dataset Gen.InputFlow.mandatory_attributes (dec_ds (vnth 0 v)))
+  (* 6: (fs user) -> check_input_section(get_config_input(user)), the first thing check_conf does *)
+  | 6 =>
+    match pandora_check_conf_input (dec_fs (vnth 0 v)) (dec_jv (vnth 1 v)) with
+    | Ok cfg => VL [VZ 0; enc_jv cfg]
+    | Raise e => VL [VZ 1; VZ (exc_code e)]
+    end
   | _ => VL [VZ (-1)]
   end.
 
